@@ -265,6 +265,84 @@ func checkC14(r *core.Run) {
 	}
 	ruleShardPledgeBooked(r)
 	ruleReleaseTerm(r)
+	r.Rule("T-book-pair: a shard is booked on a market worker (WorkerAppend) only as a first booking (its status is not yet completed) or after a WorkerRelease on every path (re-booking / hand-over): no shard is counted twice")
+	ruleBookPair(r, "market/keeper.Keeper.WorkerAppend", "market/keeper.Keeper.WorkerRelease", 3)
+}
+
+// ruleBookPair: every call site of the booking function in consensus code is
+// either preceded on every path by a call of the un-booking function, or guarded
+// by "the shard is not completed yet" (first booking).
+func ruleBookPair(r *core.Run, appendFn, releaseFn string, minSites int) {
+	af, rf := r.Func("T-book-pair", appendFn), r.Func("T-book-pair", releaseFn)
+	if af == nil || rf == nil {
+		return
+	}
+	n := 0
+	for _, f := range r.P.SortedFuncs(r.ConsensusFuncs()) {
+		res := r.Resolver(f)
+		relBlocks := map[*ssa.BasicBlock]bool{}
+		type site struct {
+			c   ssa.CallInstruction
+			idx int
+		}
+		var sites []site
+		relIdx := map[*ssa.BasicBlock]int{}
+		for _, b := range f.Blocks {
+			for i, ins := range b.Instrs {
+				c, ok := ins.(ssa.CallInstruction)
+				if !ok {
+					continue
+				}
+				_, cs := res.CalleeName(c.Common())
+				for _, g := range cs {
+					if g == rf {
+						if !relBlocks[b] {
+							relIdx[b] = i
+						}
+						relBlocks[b] = true
+					}
+					if g == af {
+						sites = append(sites, site{c, i})
+					}
+				}
+			}
+		}
+		cnt := 0
+		for _, st := range sites {
+			n++
+			cnt++
+			B := st.c.Block()
+			key := core.Key("T-book-pair", r.P.Name(f), fmt.Sprintf("%s#%d", af.Name(), cnt))
+			pos := r.P.Pos(st.c.Pos())
+			released := relBlocks[B] && relIdx[B] < st.idx
+			if !released {
+				blocked := map[*ssa.BasicBlock]bool{}
+				for b := range relBlocks {
+					if b != B {
+						blocked[b] = true
+					}
+				}
+				released = len(blocked) > 0 && forwardAvoid(f.Blocks[0], blocked, nil, func(b *ssa.BasicBlock) bool { return b == B }) == nil
+			}
+			if released {
+				r.Discharge("T-book-pair", key, pos, "every path to this booking passes "+rf.Name()+" first (re-booking or hand-over)")
+				continue
+			}
+			// first booking: the shard argument is not completed
+			args := st.c.Common().Args
+			shardArg := args[len(args)-1]
+			t := strings.TrimPrefix(res.Of(shardArg).String(), "~")
+			t = strings.TrimPrefix(t, "&")
+			ck := &guard.Checker{P: r.P, Fn: f, Res: res}
+			ok, w := ck.MustPass(B, []guard.Atom{guard.Ne("*"+guard.Exact(t)+".Status", constVal(r, "order/types", "ShardCompleted"))})
+			if ok {
+				r.Discharge("T-book-pair", key, pos, "first booking: every path to it establishes that the shard's status is not completed")
+			} else {
+				r.Violate("T-book-pair", key, pos, fmt.Sprintf("%s books the shard on its provider's market worker (%s) on a path with no preceding %s and without establishing that the shard is not completed yet: a shard that is already booked is counted a second time (Worker.Storage and income rate exceed the provider's live shards)", r.P.Name(f), af.Name(), rf.Name()), append([]string{"path (branch decisions):"}, w...)...)
+			}
+		}
+	}
+	r.Floor("booking_sites", n, minSites)
 }
 
 // ---------------------------------------------------------------- C06
@@ -282,6 +360,8 @@ func checkC06(r *core.Run) {
 	ruleBankErr(r)
 	ruleFlows(r, "C06")
 	ruleBooked(r)
+	r.Rule("T-refund-class: in market.Withdraw the full-duration price leaves the market escrow only for a waiting shard, the remaining-term price only for a completed shard of this order (no payout without a matching booked entitlement)")
+	ruleWithdrawClass(r)
 }
 
 // ---------------------------------------------------------------- C07
